@@ -346,7 +346,7 @@ def envaxis(repo: Repo) -> List[Ob]:
                             "operands given as (polarization, fock) are bound in storage order (fock, polarization)")) if hit else
              obs.append(ok("ENVAXIS", fi, f"combine-then-reorder#{i}", props, c.ast, "the requested order is established after combining")))
     # (2) member-consistent filling of shape/order lists:  L[self.X.index] = self.X(.dimensions)
-    for fi in [f for f in repo.all_functions() if f.cls is not None and f.cls.name == "Envelope"] + [repo.func("CompositeEnvelope.combine")]:
+    for fi in [f for f in repo.scan_functions() if f.cls is not None and f.cls.name == "Envelope"] + [repo.func("CompositeEnvelope.combine")]:
         props = _props(fi) if fi.cls.name == "Envelope" else ("C02",)
         k = 0
         for a in walk_no_nested(fi.node):
@@ -378,8 +378,8 @@ def stale_view(repo: Repo) -> List[Ob]:
     n_fn = 0
     for cname in ("Envelope", "ProductState"):
         for mname, fi in repo.cls(cname).methods.items():
-            if mname in ("__repr__", "__init__"):
-                continue
+            if mname in ("__repr__", "__init__") or fi.qualname in getattr(repo, "absorbed", ()):
+                continue          # a helper inlined at every call site is analysed there, with the caller's ordering context
             fn = fi.node
             if "self.state" not in src(fn):
                 continue
